@@ -65,7 +65,7 @@ class C19(Prop):
         return out
 
     def oracle(self, tier, rng, suspicious):
-        results = R.run_cases(self.cases(tier, rng))
+        results = self.l1_results or R.run_cases(self.cases(tier, rng))
         groups = {}
         for r in results:
             groups.setdefault(r.meta['gid'], {})[r.meta['role']] = r
